@@ -152,8 +152,6 @@ class World:
         self.main_waited = False     # the clock advanced while the main thread was blocked
         self.probes = {}
         self.faults = {}
-        self.access = []             # (thread idx, object) accesses for the interleaving measure
-        self.trace_access = False
 
     # ------------------------------------------------------------- bookkeeping
     def probe(self, name, n=1):
